@@ -185,3 +185,57 @@ Qed.
 
 Lemma reach_closed_in E a x : reach E a x -> exists ex, alookup x E = Some ex.
 Proof. apply reach_in_r. Qed.
+
+(* ---------- the specification only depends on the sub-DAG below a (and b) ---------- *)
+Definition submap (E1 E2 : list (N * event)) : Prop := forall x ex, alookup x E1 = Some ex -> alookup x E2 = Some ex.
+
+Lemma reach_submap E1 E2 a x : submap E1 E2 -> closed E1 -> (exists ea, alookup a E1 = Some ea) ->
+  (reach E2 a x <-> reach E1 a x).
+Proof.
+  intros Hs Hc Ha. split.
+  - intros H. induction H as [y e0 Hy|y e0 p z Hy Hp Hr IH].
+    + destruct Ha as [ea Ha]. eapply reach_refl; exact Ha.
+    + destruct Ha as [ea Ha]. pose proof (Hs y ea Ha) as Hy2. rewrite Hy in Hy2. injection Hy2 as ->.
+      eapply reach_step; [exact Ha|exact Hp|]. apply IH. eapply Hc; eauto.
+  - intros H. clear Ha. induction H as [y e0 Hy|y e0 p z Hy Hp Hr IH].
+    + eapply reach_refl. apply Hs. exact Hy.
+    + eapply reach_step; [apply Hs; exact Hy|exact Hp|exact IH].
+Qed.
+Lemma fork_pair_submap E1 E2 v x y : submap E1 E2 ->
+  (exists ex, alookup x E1 = Some ex) -> (exists ey, alookup y E1 = Some ey) ->
+  (fork_pair E2 v x y <-> fork_pair E1 v x y).
+Proof.
+  intros Hs [ex0 Hx] [ey0 Hy]. unfold fork_pair. rewrite (Hs x ex0 Hx), (Hs y ey0 Hy), Hx, Hy. reflexivity.
+Qed.
+Lemma SeesFork_submap E1 E2 a v : submap E1 E2 -> closed E1 -> (exists ea, alookup a E1 = Some ea) ->
+  (SeesFork E2 a v <-> SeesFork E1 a v).
+Proof.
+  intros Hs Hc Ha. unfold SeesFork. split; intros (x & y & Rx & Ry & Hf).
+  - apply (reach_submap E1 E2 a x Hs Hc Ha) in Rx. apply (reach_submap E1 E2 a y Hs Hc Ha) in Ry.
+    exists x, y. split; [exact Rx|]. split; [exact Ry|].
+    apply (fork_pair_submap E1 E2 v x y Hs); eauto using reach_in_r.
+  - exists x, y. split; [apply (reach_submap E1 E2 a x Hs Hc Ha); exact Rx|].
+    split; [apply (reach_submap E1 E2 a y Hs Hc Ha); exact Ry|].
+    apply (fork_pair_submap E1 E2 v x y Hs); eauto using reach_in_r.
+Qed.
+Lemma Between_submap E1 E2 a b v : submap E1 E2 -> closed E1 -> (exists ea, alookup a E1 = Some ea) ->
+  (Between E2 a b v <-> Between E1 a b v).
+Proof.
+  intros Hs Hc Ha. unfold Between. split; intros (x & ex & Rx & Ex & Cx & Rb).
+  - apply (reach_submap E1 E2 a x Hs Hc Ha) in Rx. destruct (reach_in_r _ _ _ Rx) as [ex1 Ex1].
+    pose proof (Hs x ex1 Ex1) as Ex2. rewrite Ex in Ex2. injection Ex2 as ->.
+    exists x, ex1. split; [exact Rx|]. split; [exact Ex1|]. split; [exact Cx|].
+    apply (reach_submap E1 E2 x b Hs Hc); eauto.
+  - exists x, ex. split; [apply (reach_submap E1 E2 a x Hs Hc Ha); exact Rx|]. split; [apply Hs; exact Ex|].
+    split; [exact Cx|]. apply (reach_submap E1 E2 x b Hs Hc); eauto.
+Qed.
+
+Theorem fc_spec_submap ws q n E1 E2 a b : submap E1 E2 -> closed E1 ->
+  (exists ea, alookup a E1 = Some ea) -> (exists eb, alookup b E1 = Some eb) ->
+  fc_spec ws q n E2 a b = fc_spec ws q n E1 a b.
+Proof.
+  intros Hs Hc Ha [eb Hb]. unfold fc_spec. rewrite (Hs b eb Hb), Hb. f_equal.
+  - f_equal. apply eq_true_iff_eq. rewrite !sees_fork_anc. apply SeesFork_submap; assumption.
+  - f_equal. f_equal. apply map_ext. intros v. apply eq_true_iff_eq. rewrite !fc_spec_counted.
+    rewrite (SeesFork_submap E1 E2 a v Hs Hc Ha), (Between_submap E1 E2 a b v Hs Hc Ha). reflexivity.
+Qed.
